@@ -1306,3 +1306,11 @@ impl<M, S: InterpreterStorage, Tx, Ecal, V> Interpreter<M, S, Tx, Ecal, V> {
         }
     }
 }
+
+#[cfg(all(kani, fuellabs_fuel_vm_verif))]
+mod verif {
+    include!(concat!(
+        env!("FUELLABS_FUEL_VM_VERIF_DIR"),
+        "/incrate/vm_main.rs"
+    ));
+}
